@@ -788,7 +788,9 @@ pub fn parse_threads(events: &[Event]) -> Vec<ThreadTrace> {
         let mut open: Option<((usize, u64), Vec<(usize, Event)>, Vec<(usize, Event)>)> = None;
         for (gi, e) in mine {
             match e.kind {
-                Kind::BarrierArrive | Kind::BarrierLeave | Kind::Spawn | Kind::Mark => {
+                // (an arrival at a barrier stays in the trace: inside a timed section it means the thread
+                // waited for the others between its two timestamps; logged by the loom facade only)
+                Kind::BarrierLeave | Kind::Spawn | Kind::Mark => {
                     continue;
                 }
                 Kind::TsStart => {
